@@ -155,10 +155,38 @@ class Prop:
                          'peer_codec_agrees', 'as4_path_roundtrip']
     extra_targets = ['Model/WireEnc.vo']
     correspondence_name = 'Model/WireEnc.v encode_to vs rustybgp_packet::bgp::PeerCodec::encode_to (harness/hx-enc), debug and release'
-    rule = 'TBD'
+    rule = ('case = (local capabilities, remote capabilities, message); messages: OPEN with capability lists whose encoded size runs through 255 '
+            'bytes, NOTIFICATION/KEEPALIVE/ROUTE-REFRESH, End-of-RIB / empty and non-empty Reach / Unreach for the 19 families of the code (plus one '
+            'unknown), entry counts 0 .. 3 frames (procedural bulk entries of mixed sizes around the frame boundary), attribute blocks 0 .. above the '
+            'frame limit (4096 and 65535), ADD-PATH modes, extended message on one/both sides, two-octet-AS sessions with wide AS numbers / '
+            'confederation segments / AGGREGATOR, next hops of 4/16/32 octets or none per family, VPN / labeled NLRI with 1-4 labels, a malformed '
+            'stream (masks past the address size, truncated AS_PATH, value attributes with binary codes, label stacks past 255 bits); '
+            'non-trivial = a Reach/Unreach with >= 1 entry or an OPEN with capabilities that was encoded; distinct = distinct '
+            '(kind, family, frame count, entry count, digest of the bytes written)')
     exhaustive = {'quick': False, 'thorough': False}
-    trusted_base = []
-    assumptions = []
+    trusted_base = [
+        'Model/WireEnc.v covers PeerCodec::negotiate / encode_to / do_encode / put_entries / mp_reach_encode / mp_unreach_encode, Attribute::encode, '
+        'the RFC 6793 down-conversion helpers, Capability::encode, Notification::from_notification, Ipv4Net / Ipv6Net / VPN / labeled / MPLS label '
+        'encoders; NLRI of the other 11 families (EVPN, Flowspec x4, BGP-LS, MUP x2, SR Policy x2, RTC) enter the model as their wire bytes: their '
+        'framing, splitting and size accounting are modelled and proved, their inner encoding is checked only differentially (harness builds them '
+        'with the crate\'s own per-family decode, the python oracle compares what the peer decodes, byte for byte)',
+        'the DECODER (PeerCodec::try_parse / parse_message) is not modelled here (property C03): "decodes to the same routes" is proved against the '
+        'structural reader Spec/WireRead.v written from RFC 4271/4760/7911/5492 and, for the real decoder, judged on every run by the python oracle '
+        '(gen/c04spec.py) on the output of PeerCodec::negotiate(remote, local).try_parse; decode(encode(decode b)) = decode b is checked by the '
+        'harness on every decoded value (differential only, no theorem)',
+        'harness/hx-enc builds Message values through the public constructors of rustybgp-packet (Attribute::new_with_value / new_with_bin / '
+        'new_opaque, Notification::from_notification, RouteDistinguisher::decode, per-family NLRI decode); long buffers are compared through '
+        '(length, Fletcher-style digest), buffers up to 256 bytes byte for byte',
+    ]
+    assumptions = [
+        'the family of a Reach/Unreach is one both sides announced, and the kind of every NLRI is the one of the family (what the export path builds)',
+        'value attributes (ORIGIN, MED, LOCAL_PREF, ORIGINATOR_ID) carry their canonical flags (Attribute::new_with_value); the attribute list holds no '
+        'NEXT_HOP / MP_REACH_NLRI (they are synthesised by the encoder)',
+        'next hops the oracle judges: IPv4 for the legacy IPv4 form; none for Flowspec; 4 octets only outside AFI 2; 16 or 32 octets otherwise '
+        '(an IPv4 next hop for an AFI 2 family has no RFC 4760 encoding: the code zero-pads it, unjudged)',
+        'on a two-octet-AS session an AS_PATH holding both confederation segments and AS numbers above 65535 is compared modulo AS_PATH '
+        '(RFC 6793 carries no confederation segments in AS4_PATH)',
+    ]
 
     # ---- case rendering
     def case_to_val(self, c):
@@ -204,7 +232,7 @@ class Prop:
     def canon1(o):
         if o == [-1] or o == [-9]:
             return o
-        if len(o) == 4:     # implementation: [enc, bytes, decoded, leftover]
+        if len(o) == 5:     # implementation: [enc, bytes, decoded, leftover, fixpoint flags]
             bs = o[1]
             h = hash_bytes(bs)
             return [o[0], [len(bs), h[0], h[1], bs if len(bs) <= 256 else []]]
